@@ -60,10 +60,34 @@ theorem C09_safe_invariant (cs : List Caller) (hall : ∀ c ∈ cs, c.holdsMutex
   apply nodup_of_issuedOn
   intro b; rw [(hinv.q b).2]; exact List.nodup_range' 1
 
+/-- **No deadlock.** With the mutex at every site (lock order `newAddrMtx` → bbolt writer lock → `s.mtx`), in every
+reachable state in which some caller has not returned, some caller has an enabled step. -/
+theorem C09_no_deadlock (cs : List Caller) (hall : ∀ c ∈ cs, c.holdsMutex = true) (base : Idx) (sched : List Nat)
+    (hnot : ¬ allDone cs (exec cs base sched)) :
+    ∃ i, i < cs.length ∧ (step cs (exec cs base sched) i).pc i ≠ (exec cs base sched).pc i :=
+  inv_no_deadlock hall (inv_run hall sched _ (inv_init cs base)) hnot
+
+/-- **Every schedule prefix can be completed** (so the hypothesis `allDone` of `C09_safe` is satisfiable for every
+population of callers and after every prefix; non-vacuity in general). -/
+theorem C09_can_complete (cs : List Caller) (hall : ∀ c ∈ cs, c.holdsMutex = true) (base : Idx) (sched : List Nat) :
+    ∃ more, allDone cs (exec cs base (sched ++ more)) := by
+  obtain ⟨more, h⟩ := inv_can_complete hall _ _ (inv_run hall sched _ (inv_init cs base)) (Nat.le_refl _)
+  refine ⟨more, ?_⟩
+  unfold exec
+  rw [run_append]
+  exact h
+
+/-- What the Go schedule controller can force (coarse steps: park at transaction begin / before commit / before
+the post-commit callback; callers blocked on entry run on by themselves) is a schedule of the model: the state the
+driver reports for a harness schedule is `exec` of some fine schedule, so every theorem above speaks about it. -/
+theorem C09_harness_schedules_are_model_schedules (cs : List Caller) (base : Idx) (sched : List Nat) :
+    ∃ fine, (coarseRun cs base sched).σ = exec cs base fine :=
+  coarseRun_reach cs base sched
+
 /-- The premise of `C09_safe`, checked on the table regenerated from `/repo/wallet/*.go` on every run:
 every function of package wallet that reaches `Next{External,Internal}Addresses` inside a read-write
-transaction takes `w.newAddrMtx` around it. -/
-theorem C09_generated_sites_hold : AddrSitesGen.sites.all (·.holdsMutex) = true := by decide
+transaction takes `w.newAddrMtx` — the same mutex, a field of the receiver — around it. -/
+theorem C09_generated_sites_hold : AddrSitesGen.sites.all SiteInfo.ok = true := by decide
 
 /-- `C09_safe` for callers running any of the extracted sites. -/
 theorem C09_safe_generated (cs : List Caller)
@@ -77,7 +101,9 @@ theorem C09_safe_generated (cs : List Caller)
   intro c hc
   obtain ⟨s, hs, he⟩ := hsites c hc
   rw [he]
-  exact List.all_eq_true.mp C09_generated_sites_hold s hs
+  have := List.all_eq_true.mp C09_generated_sites_hold s hs
+  simp only [SiteInfo.ok, Bool.and_eq_true] at this
+  exact this.1
 
 /-! ## Sensitivity: the hazard is real in the model -/
 
